@@ -91,6 +91,14 @@ def c38StepSt (st : DSt) (line : String) : DSt × String :=
         | none => (st, "diverged")
       | _, _ => (st, "bad-state")
     | none => (st, "bad-op")
+  | ["shape12", h] =>
+    -- the executable shape under which format_12_records_load proves that the record loads
+    match hexOr h with
+    | some b =>
+      match MitmVerif.C36.popTop 64 b with
+      | .ok (.dict kvs, []) => (st, if MitmVerif.C38Conv.shape12B kvs then "1" else "0")
+      | _ => (st, "bad-state")
+    | none => (st, "bad-op")
   | ["conv4", h] =>
     match hexOr h with
     | some b =>
